@@ -108,8 +108,8 @@ def gen_rule(rng, block, opcode, subblocks):
             pat.append({"p": "par", "name": name, "ty": ty, "n": n, "sub": ""})
             if n % 8 == 0 and rng.random() < 0.2:
                 # the byte-swapped value used as a NUMBER (a negative signed argument is its bit pattern there)
-                prod.append({"k": "sshort", "e": {"k": "bin", "op": "add", "l": {"k": "call", "f": "le", "args": [var(name)]},
-                                                  "r": numlit("1")}, "n": numlit(str(n))})
+                prod.append({"k": "sshort", "e": {"k": "bin", "op": rng.choice(["shr", "shr", "div"]), "l": {"k": "call", "f": "le", "args": [var(name)]},
+                                                  "r": numlit(rng.choice(["1", "2", "3"]))}, "n": numlit(str(n))})
             else:
                 prod.append(var(name))
             total += n
@@ -169,6 +169,10 @@ def gen_subblock(rng, name):
                       "pat": [{"p": "lit", "lc": "%", "c0": "%", "nch": 1},
                               {"p": "par", "name": "v", "ty": "u", "n": size, "sub": ""}],
                       "prod": var("v")})
+    if rng.random() < 0.3:
+        # a bare expression as one more alternative: a register name that is also a symbol is then ambiguous
+        # for the matcher, and the most-literal-characters rule decides
+        rules.append({"block": name, "sub": True, "pat": [{"p": "par", "name": "v", "ty": "u", "n": size, "sub": ""}], "prod": var("v")})
     return {"name": name, "size": size, "rules": rules, "regs": regs}
 
 
@@ -201,7 +205,7 @@ def operand_tokens(rng, spec, labels, consts, first, hot=()):
     if kind == "sub":
         sb = spec[1]
         c = rng.random()
-        subrule_imm = any(r["pat"][0]["lc"] == "%" for r in sb["rules"])
+        subrule_imm = any(r["pat"][0].get("lc") == "%" for r in sb["rules"])
         if subrule_imm and hot and rng.random() < 0.5:
             return [tok("op", "%", first)] + name_tokens(rng.choice(list(hot)), True)
         if subrule_imm and c < 0.08 and labels + consts:
@@ -209,6 +213,11 @@ def operand_tokens(rng, spec, labels, consts, first, hot=()):
         if subrule_imm and c < 0.25:
             return [tok("op", "%", first), num_tok(rng, rng.randrange(0, 1 << sb["size"]) if rng.random() < 0.8
                                                     else (1 << sb["size"]), True, "dec")]
+        bare = any(r["pat"][0].get("p") == "par" for r in sb["rules"])
+        if bare and rng.random() < 0.3:
+            if hot and rng.random() < 0.6:
+                return name_tokens(rng.choice(list(hot)), first)
+            return [num_tok(rng, rng.randrange(0, 1 << sb["size"]), first, "dec")]
         t = tok("id", rng.choice(sb["regs"]) if c < 0.92 else rng.choice(REGS), first)
         t["lit"] = True
         return [t]
@@ -391,7 +400,7 @@ def with_banks(rng, items, prob, sizes):
             has_outp = rng.random() < 0.9
             banks.append({"unit": unit, "addr": rng.choice([0, 0, 0x10, 0x100, 0x8000]), "size": size_units * unit,
                           "outp": outp if has_outp else -1, "fill": rng.random() < 0.3,
-                          "labelalign": (unit * 2) if rng.random() < 0.1 else 0})
+                          "labelalign": (unit * 2) if rng.random() < 0.3 else 0})
             if has_outp:
                 outp += size_units * unit + rng.choice([0, 0, 8, 32])
         head = [{"k": "bankdef", "n": bi + 1} for bi in range(nb)]
@@ -686,6 +695,12 @@ def gen_cascade_isa(rng):
                           concat([numlit("0x60"), {"k": "sshort", "e": var("r"), "n": numlit("8")}])]}})
         rules.append({"block": "cpu", "sub": False, "pat": [_lit("jr"), {"p": "ws"}, _par("a")],
                       "prod": concat([numlit("0x61"), {"k": "sshort", "e": var("a"), "n": numlit("16")}])})
+    if rng.random() < 0.35:
+        # a family whose opcode bytes are zero: with an operand 0 the whole encoding is the number 0 at every width
+        rules.append({"block": "cpu", "sub": False, "pat": [_lit("zj"), {"p": "ws"}, _par("v", "u", 8)],
+                      "prod": concat([numlit("0x00"), var("v")])})
+        rules.append({"block": "cpu", "sub": False, "pat": [_lit("zj"), {"p": "ws"}, _par("v", "u", 16)],
+                      "prod": concat([numlit("0x00"), var("v")])})
     if "signed" in fams:
         rules.append({"block": "cpu", "sub": False, "pat": [_lit("adds"), {"p": "ws"}, _par("v", "s", 8)],
                       "prod": concat([numlit("0x40"), var("v")])})
@@ -732,11 +747,13 @@ def gen_cascade_program(rng, isa=None):
     pending = list(labels)
     rng.shuffle(pending)
     items = []
+    if rng.random() < 0.3:
+        items.append({"k": "label", "lvl": 0, "name": pending.pop()})       # a label at address 0
     if collide:
         for nm in ("a", "v", "r"):
             if nm not in labels and rng.random() < 0.65:
                 items.append({"k": "const", "lvl": 0, "name": nm, "e": {"k": "num", "text": list(str(rng.choice([0, 5, 200])))}})
-    casc = [m for m in isa["mnemonics"] if m in ("ld", "jmp", "br", "adds", "jr", "sel")]
+    casc = [m for m in isa["mnemonics"] if m in ("ld", "jmp", "br", "adds", "jr", "sel", "zj")]
     for i in range(rng.randrange(3, 16)):
         c = rng.random()
         if pending and c < 0.25:
@@ -1204,7 +1221,7 @@ def gen_macro_program(rng):
                 assigns.append({"name": ln_, "e": ex})
         phnames = params + [x["name"] for x in assigns] * 2
         def has_imm(ops):
-            return any(o[0] == "sub" and any(r["pat"][0]["lc"] == "%" for r in o[1]["rules"]) for o in ops)
+            return any(o[0] == "sub" and any(r["pat"][0].get("lc") == "%" for r in o[1]["rules"]) for o in ops)
         immrules = [(r, ops) for r, ops in base if has_imm(ops)]
         for j in range(rng.randrange(1, 4)):
             if rng.random() < (0.3 if j == 0 and immrules else 0.12):
